@@ -173,6 +173,13 @@ def warmup():
 
 
 def worker_main(a):
+    import resource
+
+    try:
+        soft, hard = resource.getrlimit(resource.RLIMIT_NOFILE)
+        resource.setrlimit(resource.RLIMIT_NOFILE, (min(hard, 65536) if hard != resource.RLIM_INFINITY else 65536, hard))
+    except Exception:
+        pass
     prop = a.prop
     P = props.PROPS[prop]
     out = open(a.out, "w")
@@ -204,6 +211,8 @@ def worker_main(a):
         out.flush()
         i += a.of
         done += 1
+        if done % 20 == 0:
+            gc.collect()        # reference cycles of finished scenarios (and the descriptors they hold)
     out.write(json.dumps({"worker_done": a.worker, "n": done}) + "\n")
     out.close()
 
